@@ -197,6 +197,15 @@ def lane_byte(word, lane):
 
 def wf(g, ms):
     ok = (len(ms.cache.sets) == g.nsets)
+    # no sharing between sets: every set has its own policy object and its own block objects
+    for s1 in range(g.nsets):
+        for s2 in range(s1 + 1, g.nsets):
+            ok = ok & (ms.cache.sets[s1] is not ms.cache.sets[s2]) & (ms.cache.sets[s1].replacement_strategy is not ms.cache.sets[s2].replacement_strategy)
+            ok = ok & (ms.cache.sets[s1].blocks is not ms.cache.sets[s2].blocks)
+    for s in range(g.nsets):
+        for w1 in range(g.assoc):
+            for w2 in range(w1 + 1, g.assoc):
+                ok = ok & (ms.cache.sets[s].blocks[w1] is not ms.cache.sets[s].blocks[w2])
     for s in range(g.nsets):
         cs = ms.cache.sets[s]
         ok = ok & (len(cs.blocks) == g.assoc)
@@ -490,7 +499,7 @@ def constructor_unit(g, focus):
 
 def register(g, tier):
     for focus in ("C03", "C09", "C12"):
-        if focus != "C09":
+        if True:
             def mk_c(focus=focus):
                 @unit("%s/%s.__init__/%s" % (focus, g.kind.upper(), g.name), tier=tier)
                 def u():
